@@ -294,7 +294,8 @@ def check(prog: Program, tier: str) -> Result:
     _r16_16(prog, res)
     _r16_17(prog, res)
     _r16_18(prog, res)
-    res.floors.update({"R16.1": 60, "R16.2": 25, "R16.3": 10, "R16.4": 2, "R16.5": 1, "R16.6": 3, "R16.7": 8, "R16.8": 5, "R16.9": 2, "R16.10": 4, "R16.11": 1, "R16.12": 1, "R16.13": 1, "R16.15": 2, "R16.16": 3, "R16.17": 1, "R16.18": 4})
+    _r16_19(prog, res)
+    res.floors.update({"R16.1": 60, "R16.2": 25, "R16.3": 10, "R16.4": 2, "R16.5": 1, "R16.6": 3, "R16.7": 8, "R16.8": 5, "R16.9": 2, "R16.10": 4, "R16.11": 1, "R16.12": 1, "R16.13": 1, "R16.15": 2, "R16.16": 3, "R16.17": 1, "R16.18": 4, "R16.19": 1})
     res.analysed.update({"ast_kinds": len(kinds)})
     return res
 
@@ -933,6 +934,51 @@ def _r16_18(prog: Program, res: Result) -> None:
 
 
 
+# ------------------------------------------------------------------------------------------------ R16.19
+def _r16_19(prog: Program, res: Result) -> None:
+    """The whitelist is a set of NAMES.  A name with two definitions (one per branch of an `if sys.platform ..`, a method and a
+    function, a nested and a module-level def) is whichever of them the call reaches; one pure definition says nothing about
+    the other.  Every admission of a definition's name is reached only under a test of a census of the definitions of the
+    module (a Counter over the names of all def / class statements) that found exactly one."""
+    from ..defuse import bindings
+    from ..pathcond import PathAnalysis, plain
+    fn = prog.funcs.get(("parsing", "safe_callable_names"))
+    if fn is None:
+        raise AnalysisError("anchor parsing.safe_callable_names not found")
+    counters = set()
+    for nm, defs in bindings(fn).items():
+        for _s, v in defs:
+            if v is not None and "Counter(" in norm(v) and ".name" in norm(v) and "ast.FunctionDef" in norm(v) and "ast.ClassDef" in norm(v) and "walk(" in norm(v):
+                counters.add(nm)
+    sites = [c for c in prog.calls_in(fn) if isinstance(c.func, ast.Attribute) and c.func.attr == "add" and c.args and isinstance(c.args[0], ast.Attribute)
+             and c.args[0].attr == "name"]
+    if not sites:
+        res.undecided("R16.19", fn.loc(), fn.fq, "admission of a definition's name", "site `<whitelist>.add(<def>.name)` not found")
+        return
+    pa = PathAnalysis(prog, fn)
+    for c in sites:
+        subject = norm(c.args[0])
+        worlds = pa.worlds_at(c)
+        def single(f) -> bool:
+            if f[0] != "lit":
+                return False
+            t = plain(f[1]).replace(" ", "")
+            for k in counters:
+                if t in (f"lt(1,{k}[{subject}])", f"gt({k}[{subject}],1)") and not f[2]:
+                    return True
+                if t in (f"eq(1,{k}[{subject}])", f"eq({k}[{subject}],1)", f"le({k}[{subject}],1)", f"ge(1,{k}[{subject}])") and f[2]:
+                    return True
+                if t in (f"ne(1,{k}[{subject}])", f"ne({k}[{subject}],1)") and not f[2]:
+                    return True
+            return False
+        ok = bool(counters) and bool(worlds) and all(any(single(f) for f in w.facts) for w in worlds)
+        res.decide(ok, "R16.19", fn.loc(c), fn.fq, f"{short(c, 50)} # a definition's name becomes a safe callable",
+                   f"only for a name with exactly one definition in the module (census {sorted(counters)})" if ok else
+                   "the name of a pure definition becomes a safe callable although the module may define the name again (other branch of an if, nested def, method): "
+                   "the call that reaches the other, effectful definition is deleted as pointless")
+
+
+
 def _r16_16(prog: Program, res: Result) -> None:
     """Whose break is it?  A loop that is certainly entered is 'blocking' (nothing after it runs) only if nothing inside can leave
     it normally.  A `break` of THIS loop can stand at any depth of if / try / with / match - and in the ELSE clause of an inner
@@ -1250,6 +1296,10 @@ def _positive(test: ast.AST) -> bool:
 from ..selftest import Variant  # noqa: E402
 
 VARIANTS: List[Variant] = [
+    Variant("twice-defined-functions-whitelisted-again", "FIRE", "parsing", "            if definition_count[node.name] > 1:\n                continue  # Which of the definitions a call means is not known\n", "", "R16.19"),
+    Variant("twice-defined-classes-whitelisted-again", "FIRE", "parsing", "        if definition_count[node.name] > 1 or node.name in defined_names:\n            continue  # Which of the definitions a call means is not known\n\n", "", "R16.19"),
+    Variant("census-of-function-definitions-only", "FIRE", "parsing", "        for node in core.walk(root, (ast.FunctionDef, ast.AsyncFunctionDef, ast.ClassDef))\n    )\n    changes = True", "        for node in core.walk(root, (ast.FunctionDef, ast.AsyncFunctionDef))\n    )\n    changes = True", "R16.19"),
+    Variant("single-definition-tested-by-equality", "SILENT", "parsing", "            if definition_count[node.name] > 1:\n                continue  # Which of the definitions a call means is not known\n", "            if definition_count[node.name] != 1:\n                continue\n", "R16.19"),
     Variant("function-arguments-of-map-not-judged", "FIRE", "core", "        if any(\n            _may_call_something_unsafe(function, safe_callable_whitelist)\n            for function in _functions_called_by(node)\n        ):\n            return True\n\n", "", "R16.18"),
     Variant("key-functions-forgotten", "FIRE", "core", "    if name in (\"sorted\", \"max\", \"min\", \"sort\", \"groupby\", \"nlargest\", \"nsmallest\", \"accumulate\"):", "    if name in (\"sort\", \"groupby\", \"nlargest\", \"nsmallest\", \"accumulate\"):", "R16.18"),
     Variant("map-judged-by-its-second-argument", "FIRE", "core", "    if name in calls_first_argument:\n        return node.args[:1]\n", "    if name in calls_first_argument:\n        return node.args[1:2]\n", "R16.18"),
